@@ -306,7 +306,12 @@ def _guarded(fn, arg, seconds=30):
     old = signal.signal(signal.SIGPROF, on_alarm)
     signal.setitimer(signal.ITIMER_PROF, max(seconds, 120))
     try:
-        return fn(arg)
+        try:
+            return fn(arg)
+        except _Hang:
+            # a call that never returns does so every time: the verdict needs the watchdog to fire twice
+            signal.setitimer(signal.ITIMER_PROF, max(seconds, 120))
+            return fn(arg)
     finally:
         signal.setitimer(signal.ITIMER_PROF, 0)
         signal.signal(signal.SIGPROF, old)
